@@ -110,12 +110,14 @@ validroute(const char *s)
 static const char *
 tagvalue(char **lines, const unsigned int idx)
 {
+	const size_t taglen = strlen(tags[idx]);
 	unsigned int i = 0;
 
-	while (strncmp(lines[i], tags[idx], strlen(tags[idx])) != 0)
+	/* the key must end here, otherwise "outgoingip6=" would be taken for "outgoingip" */
+	while ((strncmp(lines[i], tags[idx], taglen) != 0) || (lines[i][taglen] != '='))
 		i++;
-	
-	return lines[i] + strlen(tags[idx]) + 1;
+
+	return lines[i] + taglen + 1;
 }
 
 /**
